@@ -166,8 +166,8 @@ class SymDoc:
         return opt
 
     def render(self, model):
-        out = {}
+        out = []
         for key, (present, cell) in self.cells.items():
             if z3.is_true(model.eval(present, model_completion=True)):
-                out[key.decode('utf-8', 'replace')] = cell.render(model)
-        return out
+                out.append([list(key), cell.render(model)])
+        return {'$obj': out}
